@@ -514,6 +514,23 @@ class Harness:
         return True
 
 
+_LOOP_END = {}
+
+
+def _loop_end(path):
+    """last line of the `while True` body of RunEngine._run (cached per source file content)"""
+    import ast
+
+    src = open(path).read()
+    key = hash(src)
+    if key not in _LOOP_END:
+        tree = ast.parse(src)
+        run_fn = next(n for c in tree.body if isinstance(c, ast.ClassDef) and c.name == "RunEngine" for n in c.body if isinstance(n, ast.AsyncFunctionDef) and n.name == "_run")
+        outer_try = next(n for n in run_fn.body if isinstance(n, ast.Try))
+        _LOOP_END[key] = max(getattr(n, "end_lineno", 0) for n in outer_try.body)
+    return _LOOP_END[key]
+
+
 def install_proxy(H):
     """Replace the name `asyncio` inside bluesky.run_engine by a proxy that reports _run's suspension points."""
     import bluesky.run_engine as R
@@ -521,13 +538,7 @@ def install_proxy(H):
     real = asyncio
     proxy = types.ModuleType("asyncio_proxy")
     proxy.__dict__.update(real.__dict__)
-    src_lines = open(R.__file__).read().splitlines()
-    import ast
-
-    tree = ast.parse("\n".join(src_lines))
-    run_fn = next(n for c in tree.body if isinstance(c, ast.ClassDef) and c.name == "RunEngine" for n in c.body if isinstance(n, ast.AsyncFunctionDef) and n.name == "_run")
-    outer_try = next(n for n in run_fn.body if isinstance(n, ast.Try))
-    loop_end = max(getattr(n, "end_lineno", 0) for n in outer_try.body)
+    loop_end = _loop_end(R.__file__)
 
     def sleep(delay, *a, **k):
         f = sys._getframe(1)
